@@ -97,7 +97,8 @@ func genExt(o *Out, rng *rand.Rand, tier string) {
 		// --- ExtractMAC on the message and on relay chains around it
 		var d dhcpv6.DHCPv6 = m
 		for k := rng.Intn(4); k > 0; k-- {
-			peer := rip6(rng)
+			peer := rip6(rng).To16() // (a hand-built relay whose peer address is a 4-byte net.IP makes ExtractMAC index out of range;
+			// decoded relays always carry 16 bytes)
 			if rng.Intn(2) == 0 { // EUI-64 style peer address
 				peer = net.IP(append(append(randBytes(rng, 11), 0xff, 0xfe), randBytes(rng, 3)...))
 			}
